@@ -3,6 +3,7 @@ package an
 import (
 	"fmt"
 	"go/ast"
+	"go/constant"
 	"go/token"
 	"go/types"
 	"regexp/syntax"
@@ -761,6 +762,7 @@ func runC12(w *World) *Result {
 	c12Newlines(w, r)
 	c12CloseAfterNewline(w, r)
 	c12EOFNotEaten(w, r)
+	c12ArmNeedsNewline(w, r)
 	c12EOF(w, r)
 	SignRule(w, r, "R-C12-sign")
 	return r
@@ -2409,5 +2411,104 @@ func c12EOFNotEaten(w *World, r *Result) {
 	}
 	if n == 0 {
 		r.Triv(rule, "nl:eof-eaten:none", "-", "no consumed token is compared with EOF")
+	}
+}
+
+// c12ArmNeedsNewline (R-C12-drop, clause "needs-newline"): no arm of the lexer is taken only
+// if a line break follows somewhere in the rest of the input. A lexeme that "ends at the
+// next newline" also ends at the end of the file: an arm gated by a successful search for
+// "\n" is not taken on the last line of a file without a final newline, which is then lexed
+// differently (a comment becomes two division operators).
+func c12ArmNeedsNewline(w *World, r *Result) {
+	rule := "R-C12-drop"
+	n := 0
+	isNL := func(v ssa.Value) bool {
+		k, ok := v.(*ssa.Const)
+		if !ok || k.Value == nil {
+			return false
+		}
+		switch k.Value.Kind() {
+		case constant.String:
+			return strings.Contains(constant.StringVal(k.Value), "\n")
+		case constant.Int:
+			return k.Int64() == 10
+		}
+		return false
+	}
+	var searches func(v ssa.Value, d int, seen map[ssa.Value]bool) *ssa.Call
+	searches = func(v ssa.Value, d int, seen map[ssa.Value]bool) *ssa.Call {
+		if v == nil || d > 5 || seen[v] {
+			return nil
+		}
+		seen[v] = true
+		switch x := v.(type) {
+		case *ssa.Call:
+			if callee := x.Call.StaticCallee(); callee != nil {
+				switch callee.String() {
+				case "strings.Index", "strings.IndexByte", "strings.IndexRune", "strings.IndexAny", "strings.Contains", "strings.ContainsRune", "strings.ContainsAny", "strings.Cut", "bytes.IndexByte":
+					for _, a := range x.Call.Args[1:] {
+						if isNL(a) {
+							return x
+						}
+					}
+				}
+			}
+		case *ssa.BinOp:
+			if c := searches(x.X, d+1, seen); c != nil {
+				return c
+			}
+			return searches(x.Y, d+1, seen)
+		case *ssa.UnOp:
+			return searches(x.X, d+1, seen)
+		case *ssa.Extract:
+			return searches(x.Tuple, d+1, seen)
+		case *ssa.Phi:
+			for _, e := range x.Edges {
+				if c := searches(e, d+1, seen); c != nil {
+					return c
+				}
+			}
+		}
+		return nil
+	}
+	seenSearch := map[*ssa.Call]bool{}
+	for _, fn := range w.Funcs("lexer") {
+		for _, b := range fn.Blocks {
+			cnd, _ := condOf(b)
+			if cnd == nil {
+				continue
+			}
+			call := searches(cnd, 0, map[ssa.Value]bool{})
+			// the first operand of a short-circuit conjunction sits in a dominating block
+			if call == nil {
+				continue
+			}
+			// does either side build a token?
+			builds := false
+			for _, sc := range b.Succs {
+				for _, blk := range fn.Blocks {
+					if blk != sc && !sc.Dominates(blk) {
+						continue
+					}
+					if len(sc.Preds) != 1 {
+						continue
+					}
+					for _, ins := range blk.Instrs {
+						if c, ok := ins.(*ssa.Call); ok && namedName(c.Type()) == "Token" {
+							builds = true
+						}
+					}
+				}
+			}
+			if !builds || seenSearch[call] {
+				continue
+			}
+			seenSearch[call] = true
+			n++
+			r.Bad(rule, fmt.Sprintf("needs-newline:%s#%d", FuncName(fn), n), w.Pos(call.Pos()), "a token is only built when a search for a line break in the rest of the input succeeds: on the last line of a file that does not end in a newline the arm is not taken and the text is lexed differently")
+		}
+	}
+	if n == 0 {
+		r.Ok(rule, "needs-newline:none", "-", "no arm of the lexer depends on a line break being found in the rest of the input")
 	}
 }
